@@ -5,6 +5,7 @@ import (
 
 	gtfsrt "github.com/jamespfennell/gtfs/proto"
 	"google.golang.org/protobuf/proto"
+	"google.golang.org/protobuf/reflect/protoreflect"
 
 	"verif/sim"
 )
@@ -89,8 +90,12 @@ func RichFeedMin(t *sim.T, minVehicles int) *gtfsrt.FeedMessage {
 			a.DescriptionText = nil
 		}
 		prio := []int{1, 2, 3, 4, 5, 9, 16, 22, 27, 35, 99}[t.Choose(11)]
+		mixed := t.Chance(1, 2) // entities of one alert with different priorities (different mapped effects)
 		nie := t.Range(1, 3)
 		for k := 0; k < nie; k++ {
+			if mixed {
+				prio = []int{1, 2, 3, 4, 5, 9, 16, 22, 27, 35, 99}[t.Choose(11)]
+			}
 			es := &gtfsrt.EntitySelector{AgencyId: ps("MTASBWY"), RouteId: ps([]string{"L", "M", "1"}[k%3])}
 			if t.Chance(3, 4) {
 				proto.SetExtension(es, gtfsrt.E_MercuryEntitySelector, &gtfsrt.MercuryEntitySelector{SortOrder: ps(fmt.Sprintf("MTASBWY:%s:%d", *es.RouteId, prio))})
@@ -195,6 +200,11 @@ func RichFeedMin(t *sim.T, minVehicles int) *gtfsrt.FeedMessage {
 		}
 		msg.Entity = append(msg.Entity, &gtfsrt.FeedEntity{Id: ps("bus:2"), Alert: a})
 	}
+	if t.Chance(1, 4) {
+		if n := FillRareFields(t, msg); n > 0 {
+			t.Probe("rarely-used-fields-set")
+		}
+	}
 	if t.Chance(1, 2) {
 		for i := len(msg.Entity) - 1; i > 0; i-- {
 			j := t.Choose(i + 1)
@@ -273,4 +283,71 @@ func PerturbValues(t *sim.T, m *gtfsrt.FeedMessage) (*gtfsrt.FeedMessage, int) {
 		}
 	}
 	return c, n
+}
+
+// FillRareFields sets, with small probability each, optional fields the generators never set themselves
+// (walking the message with protoreflect): whatever field a future version of the library starts to
+// read, some inputs carry it.
+func FillRareFields(t *sim.T, m proto.Message) int {
+	return fillRare(t, m.ProtoReflect(), 0)
+}
+
+func fillRare(t *sim.T, m protoreflect.Message, depth int) int {
+	n := 0
+	fds := m.Descriptor().Fields()
+	for i := 0; i < fds.Len(); i++ {
+		fd := fds.Get(i)
+		if fd.IsMap() {
+			continue
+		}
+		if fd.IsList() {
+			if fd.Kind() == protoreflect.MessageKind {
+				l := m.Get(fd).List()
+				for k := 0; k < l.Len() && k < 40; k++ {
+					n += fillRare(t, l.Get(k).Message(), depth+1)
+				}
+			}
+			continue
+		}
+		if m.Has(fd) {
+			if fd.Kind() == protoreflect.MessageKind {
+				n += fillRare(t, m.Get(fd).Message(), depth+1)
+			}
+			continue
+		}
+		if !t.Chance(1, 12) {
+			continue
+		}
+		switch fd.Kind() {
+		case protoreflect.StringKind:
+			m.Set(fd, protoreflect.ValueOfString([]string{"x", "", "S1", "rare value"}[t.Choose(4)]))
+		case protoreflect.BoolKind:
+			m.Set(fd, protoreflect.ValueOfBool(t.Chance(1, 2)))
+		case protoreflect.Int32Kind, protoreflect.Sint32Kind, protoreflect.Sfixed32Kind:
+			m.Set(fd, protoreflect.ValueOfInt32(int32(t.Range(-2, 100))))
+		case protoreflect.Int64Kind, protoreflect.Sint64Kind, protoreflect.Sfixed64Kind:
+			m.Set(fd, protoreflect.ValueOfInt64(int64(t.Range(-2, 100000))))
+		case protoreflect.Uint32Kind, protoreflect.Fixed32Kind:
+			m.Set(fd, protoreflect.ValueOfUint32(uint32(t.Choose(100))))
+		case protoreflect.Uint64Kind, protoreflect.Fixed64Kind:
+			m.Set(fd, protoreflect.ValueOfUint64(uint64(t.Choose(100000))))
+		case protoreflect.FloatKind:
+			m.Set(fd, protoreflect.ValueOfFloat32(float32(t.Choose(100))/3))
+		case protoreflect.DoubleKind:
+			m.Set(fd, protoreflect.ValueOfFloat64(float64(t.Choose(100))/3))
+		case protoreflect.EnumKind:
+			vals := fd.Enum().Values()
+			m.Set(fd, protoreflect.ValueOfEnum(vals.Get(t.Choose(vals.Len())).Number()))
+		case protoreflect.MessageKind:
+			if depth < 4 {
+				sub := m.NewField(fd)
+				n += fillRare(t, sub.Message(), depth+1)
+				m.Set(fd, sub)
+			}
+		default:
+			continue
+		}
+		n++
+	}
+	return n
 }
